@@ -42,6 +42,16 @@ CHECKS = {
         note='Trusted: shadow-stack rule of the reference tracer (call = push of next-instruction address + jump), /proc/pid/mem. Single-threaded '
              'programs here; other threads are covered by the C09 workload.',
         ref='DESIGN.md §4 C05'),
+    'C09': dict(
+        technique='runtime monitoring: online checker over stop events against the debuggee\'s own per-thread atomic counters and kernel task states (double sample), under stress schedules, CPU pinning and seeded tracer delay points',
+        text='Generated programs with 2-64 threads in overlapping waves race to line, function and single-instruction breakpoints; at every '
+             'reported stop all kernel tasks must be in tracing stop in two samples 2 ms apart with unchanged counters, the thread list must equal '
+             '/proc/<pid>/task, and the reporting thread\'s own BEFORE/EXEC/AFTER counters must equal the number of arrivals reported for it so far; '
+             'at exit every thread was reported exactly K times and output and exit status equal the native run. Held on the schedules explored; '
+             'step commands among running threads are a separate leg whose anomalies are listed known findings.',
+        note='Trusted: SeqCst counters maintained by the debuggee, /proc task states (a task past PTRACE_EVENT_EXIT is polled until it is gone), '
+             'the native run. Evidence reports the number of distinct stop orders and of stops with a sibling parked on a breakpoint byte.',
+        ref='DESIGN.md §4 C09'),
     'C06': dict(
         technique='runtime monitoring: structural comparison of the debugger\'s Value trees with the debuggee\'s own canonical self-description (reference model = safe Rust in the program)',
         text='Generated programs hold ~40 variables each (locals, statics, thread-locals, arguments) from a recursive type grammar with boundary '
